@@ -27,7 +27,7 @@ With --run: runs
         the python classifier says R  =>  wf_ty must be false (cross-check).
     (5) SCRIPT pass: every case that parses alone in both positions is put into ONE script
         `SELECT CAST(x AS T_0); SELECT x::T_0; SELECT CAST(x AS T_1); ...` which `typedump -script` parses with a single
-        parser.Parse call; its per-statement results must equal the per-case results line by line (state carried from
+        parser.Parse call (at most SCRIPT_TYPES = 20000 types per script, i.e. one script in the quick tier); its per-statement results must equal the per-case results line by line (state carried from
         one type / statement to the next, e.g. a counter that is not restored, only shows inside one Parse call).
         A difference is reported with the script position and the type text; --script-dump FILE stores the types of the
         script up to and including the first differing one (hex, one per line) for the replay record.
@@ -127,6 +127,8 @@ STR_BYTES = [b"caf\xe9", b"M\xfcnchen", b"Europe/Z\xfcrich", b"\xe9", b"\xe9t\xe
              b"\xed\xa0\x80", b"\xed\xbf\xbf", b"\xed\xa0\xbd\xed\xb8\x80",                                  # surrogates (CESU-8)
              b"\xf4\x90\x80\x80", b"\xf8\x88\x80\x80\x80", b"\xfc\x84\x80\x80\x80\x80",                       # beyond U+10FFFF / 5- and 6-byte forms
              b"caf\xe9's", b"\xe9\\\xe8", b"'\xff'", b"\xe9\n\xe8\t", b"\xc3\xa9\xe9\xc3\xa9", b"\xe6\x97\xa5\xe6\x97", b"\x00\xff\x00"]  # mixed with quote / backslash / controls / valid UTF-8
+
+SCRIPT_TYPES = 20000        # types per script of the script pass (2 statements each); the quick tier fits into one script
 
 # classes excluded because they hit a defect of /repo that is reported and still open (name -> reason); empty = nothing excluded
 KNOWN_OPEN = {}
@@ -598,9 +600,9 @@ def canon_py(t):
         elif a[0] == 'm':
             parts.append("-" + str(a[1]))
         elif a[0] == 's':
-            parts.append(repr(a[1].decode("utf-8", "replace")))
+            parts.append(repr(a[1])[1:])
         else:
-            parts.append("%r = %s%d" % (a[1].decode("utf-8", "replace"), "-" if a[2] else "", a[3]))
+            parts.append("%s = %s%d" % (repr(a[1])[1:], "-" if a[2] else "", a[3]))
     return t[1] + "(" + ", ".join(parts) + ")"
 
 
@@ -678,6 +680,11 @@ def strlen_grid(extras):
                 g.add((p, q))
         for q in LENS_POW:
             for p in SMALL_SET:
+                g.add((p, q))
+        # the special at every stream offset around the reader's 4096-byte buffer boundary when the case is parsed alone
+        # (the statement text before the string is 20..60 bytes long; inside the script every alignment occurs anyway)
+        for p in range(4030, 4094):
+            for q in (0, 1, 33):
                 g.add((p, q))
     return sorted(g)
 
@@ -773,10 +780,12 @@ def extra_cases(seed, extras):
                 out.append((t, "canonical", render(r, t, "canonical"), "strlen"))
     # wide and deep
     if "wide" not in KNOWN_OPEN:
-        sizes = [1600] if extras == "quick" else [1600, 5000, 20000]
+        sizes = [1600] if extras == "quick" else [1600, 5000, 12000]
         depths = [64, 300] if extras == "quick" else [64, 300, 1000]
         for n in sizes:
             for kind in ("tuple-plain", "variant-plain", "tuple-named", "variant-mixed", "tuple-mixed-nested", "enum16", "enum-novalues"):
+                if n > 5000 and kind not in ("tuple-plain", "variant-mixed"):
+                    continue        # the extracted model is quadratic in the argument count (about 4 s at 12000)
                 r = rng()
                 t = wide_tree(kind, n)
                 style = SEP_STYLES[len(out) % len(SEP_STYLES)]
@@ -839,10 +848,11 @@ def real_pairs(t, out):
 
 
 def dec(h):
+    """the answer as bytes (so that %r shows bytes that are not UTF-8 as \\xNN), ERR / PANIC / OOF:... as text"""
     if h in ("-", ""):
-        return ""
+        return b""
     try:
-        return bytes.fromhex(h).decode("latin-1")       # one character per byte: bytes that are not UTF-8 stay visible as \xNN in %r
+        return bytes.fromhex(h)
     except ValueError:
         return h
 
@@ -852,7 +862,9 @@ def short(a, b=None):
     x = dec(a)
     if len(x) <= 300:
         return repr(x)
-    y = dec(b) if b is not None else ""
+    y = dec(b) if b is not None else b""
+    if not isinstance(y, type(x)):
+        y = x[:0]
     k = 0
     while k < min(len(x), len(y)) and x[k] == y[k]:
         k += 1
@@ -1007,7 +1019,7 @@ def main(argv):
     with open(sin, "w") as f:
         for i in script_idx:
             f.write(hx(cases[i][2]) + "\n")
-    sp = subprocess.run([opts["--typedump"], "-script"], stdin=open(sin), capture_output=True, text=True)
+    sp = subprocess.run([opts["--typedump"], "-script", str(SCRIPT_TYPES)], stdin=open(sin), capture_output=True, text=True)
     sl = sp.stdout.splitlines()
     if keep:
         open(os.path.join(tmp, "script.out"), "w").write(sp.stdout)
@@ -1101,21 +1113,24 @@ def main(argv):
         n_script_bad += 1
         if first_script_bad is None:
             first_script_bad = k
-        for (posn, one, scr, stno) in (("CAST", ca, sa, 2 * k), ("::", cb, sb, 2 * k + 1)):
+        kk = k % SCRIPT_TYPES
+        nscr = min(SCRIPT_TYPES, len(script_idx) - (k - kk))
+        for (posn, one, scr, stno) in (("CAST", ca, sa, 2 * kk), ("::", cb, sb, 2 * kk + 1)):
             if one != scr and scr != "SKIP":
-                report("SCRIPT", i, "position=%s script-statement=%d of %d (type number %d in the script): alone %s, inside the script %s%s" % (
-                    posn, stno, 2 * len(script_idx), k, short(one, scr), short(scr, one),
+                report("SCRIPT", i, "position=%s script-statement=%d of %d (type number %d in script %d): alone %s, inside the script %s%s" % (
+                    posn, stno, 2 * nscr, kk, k // SCRIPT_TYPES, short(one, scr), short(scr, one),
                     "" if cases[i][0] is None else " type " + canon_py(cases[i][0])[:300]), order=k)
                 break
     if first_script_bad is not None and opts["--script-dump"]:
         with open(opts["--script-dump"], "w") as f:
-            for i in script_idx[:first_script_bad + 1]:
+            for i in script_idx[first_script_bad - first_script_bad % SCRIPT_TYPES:first_script_bad + 1]:
                 f.write(hx(cases[i][2]) + "\n")
 
     print(cov)
     print(cov2)
-    print("script pass: %d cases = %d statements in ONE parser.Parse call (script of %d bytes): %d cases differ from their per-case result, %d skipped after the restart limit" % (
-        len(script_idx), 2 * len(script_idx), sum(len(cases[i][2]) * 2 + 30 for i in script_idx), n_script_bad, n_script_skip))
+    print("script pass: %d cases = %d statements in %d parser.Parse call(s) of at most %d statements (scripts of %d bytes in all): %d cases differ from their per-case result, %d skipped after the restart limit" % (
+        len(script_idx), 2 * len(script_idx), (len(script_idx) + SCRIPT_TYPES - 1) // SCRIPT_TYPES, 2 * SCRIPT_TYPES,
+        sum(len(cases[i][2]) * 2 + 30 for i in script_idx), n_script_bad, n_script_skip))
     print("tree cases %d: wf %d (theorem instances checked against the code: %d), residual combination R (not wf) %d %s" % (
         len(cases) - n_mut, n_wf, n_thm, n_resid, resid_answers))
     print("mutants (text only) %d: model = code on %s answers, model OOF on %d answers" % (n_mut, mut_same, n_mut_oof))
